@@ -2,7 +2,11 @@
 //
 //	W <cmp> <build> <shape> <ops>  |  t:<inorder>;<item>;<item>...
 //
-// cmp    n natural order, r reversed, m<k> keys compared modulo k
+// cmp    n natural order, r reversed, m<k> keys compared modulo k  (results -1/0/+1);
+//
+//	a a-b, t 3*(a-b), h (a-b)<<32, A b-a, D 7*(b-a), M<k> (a mod k)-(b mod k), R<k> the same
+//	reversed, x MinInt/0/MaxInt, X the same reversed  (arbitrary and extreme magnitudes)
+//
 // build  P            the keys of <shape> are added in preorder to a β=1000 tree (public API only;
 //
 //	             reaches every BST shape)
@@ -17,6 +21,7 @@
 // ops    ';'-separated, over cursor registers 0..3 (all start as nil *Cursor):
 //
 //	K<r>=<k> Tree.Cursor(k)   O<r> Tree.Root()   Z<r> nil cursor   E<r> new(Cursor) (empty path)
+//	G<r>=<k> Tree.Get(k) (the register is not used): item g:<key>,<ok>
 //	C<a><b>  reg b = reg a .Clone()
 //	n p l r u m x <r>   Next Prev Left Right Up Min Max   (item gets "!" if the result is not the receiver)
 //	i<r> Inorder (all)   j<r>:<k> Inorder stopped after k keys
@@ -30,6 +35,7 @@ package main
 
 import (
 	"fmt"
+	"math"
 	"strconv"
 	"strings"
 
@@ -37,12 +43,28 @@ import (
 	"verif/harness/internal/tr"
 )
 
+func nat(a, b int) int {
+	if a < b {
+		return -1
+	} else if a > b {
+		return 1
+	}
+	return 0
+}
+
 func cmpFor(s string) func(a, b int) int {
-	nat := func(a, b int) int {
+	modk := func() func(int) int {
+		k, _ := strconv.Atoi(s[1:])
+		if k <= 0 {
+			k = 1
+		}
+		return func(a int) int { return ((a % k) + k) % k }
+	}
+	ext := func(a, b int) int {
 		if a < b {
-			return -1
+			return math.MinInt
 		} else if a > b {
-			return 1
+			return math.MaxInt
 		}
 		return 0
 	}
@@ -51,13 +73,29 @@ func cmpFor(s string) func(a, b int) int {
 		return nat
 	case s == "r":
 		return func(a, b int) int { return nat(b, a) }
+	case s == "a":
+		return func(a, b int) int { return a - b }
+	case s == "t":
+		return func(a, b int) int { return 3 * (a - b) }
+	case s == "h":
+		return func(a, b int) int { return (a - b) << 32 }
+	case s == "A":
+		return func(a, b int) int { return b - a }
+	case s == "D":
+		return func(a, b int) int { return 7 * (b - a) }
+	case s == "x":
+		return ext
+	case s == "X":
+		return func(a, b int) int { return ext(b, a) }
 	case strings.HasPrefix(s, "m"):
-		k, _ := strconv.Atoi(s[1:])
-		if k <= 0 {
-			k = 1
-		}
-		md := func(a int) int { return ((a % k) + k) % k }
+		md := modk()
 		return func(a, b int) int { return nat(md(a), md(b)) }
+	case strings.HasPrefix(s, "M"):
+		md := modk()
+		return func(a, b int) int { return md(a) - md(b) }
+	case strings.HasPrefix(s, "R"):
+		md := modk()
+		return func(a, b int) int { return md(b) - md(a) }
 	}
 	panic("bad comparator " + s)
 }
@@ -176,6 +214,10 @@ func exec(in string) string {
 				regs[r] = t.Cursor(k)
 				touch(r)
 				items = append(items, state())
+			case 'G':
+				k, _ := strconv.Atoi(op[3:])
+				v, ok := t.Get(k)
+				items = append(items, "g:"+strconv.Itoa(v)+","+tr.B(ok))
 			case 'O':
 				regs[r] = t.Root()
 				touch(r)
@@ -405,6 +447,8 @@ func (x *gen) randomWalk(keys []int, steps int) []string {
 			ops = append(ops, "j"+rs+":"+strconv.Itoa(1+r.Intn(4)))
 		case c < 95:
 			ops = append(ops, string("ZE"[r.Intn(2)])+rs)
+		case c < 97:
+			ops = append(ops, "G"+rs+"="+strconv.Itoa(pick()))
 		default:
 			// re-anchor then sweep, so that later moves continue from a real position
 			ops = append(ops, string("NP"[r.Intn(2)])+rs)
@@ -443,16 +487,39 @@ func main() {
 					rec(nil, maxLen)
 					for _, st := range starts {
 						for _, sq := range seqs {
-							ops := []string{st, "C01"}
-							for _, m := range sq {
-								ops = append(ops, m+"0")
+							// the moves go to the original (register 0) or to the clone (register 1);
+							// every register is re-read after every move
+							for _, mv := range []string{"0", "1"} {
+								if mv == "1" && len(sq) == 0 {
+									continue
+								}
+								ops := []string{st, "C01"}
+								for _, m := range sq {
+									ops = append(ops, m+mv)
+								}
+								ops = append(ops, "i0", "i1")
+								tag := "exhaustive"
+								if st == "Z0" || st == "E0" {
+									tag = "nil-or-empty-cursor"
+								}
+								tags := []string{tag}
+								if mv == "1" {
+									tags = append(tags, "clone-moved")
+								} else if len(sq) > 0 {
+									tags = append(tags, "original-moved")
+								}
+								x.emit("n", "P", shape, ops, tags...)
+								// the same tree under comparators that return arbitrary magnitudes
+								if n <= 3 && mv == "0" && len(sq) <= 1 {
+									for _, c := range []string{"a", "t", "x", "h"} {
+										gk := "15"
+										if i := strings.IndexByte(st, '='); i >= 0 {
+											gk = st[i+1:]
+										}
+										x.emit(c, "P", shape, append([]string{"G0=" + gk}, ops...), tag, "custom-comparator", "comparator-magnitudes")
+									}
+								}
 							}
-							ops = append(ops, "i0", "i1")
-							tag := "exhaustive"
-							if st == "Z0" || st == "E0" {
-								tag = "nil-or-empty-cursor"
-							}
-							x.emit("n", "P", shape, ops, tag)
 						}
 					}
 				}
@@ -474,11 +541,18 @@ func main() {
 					beta = 1000
 				}
 				cmps := "n"
-				switch r.Intn(6) {
+				var ctags []string
+				switch r.Intn(8) {
 				case 0:
 					cmps = "r"
 				case 1:
 					cmps = "m" + strconv.Itoa(3+r.Intn(17))
+				case 2:
+					cmps = tr.Pick(r, []string{"M", "R"}) + strconv.Itoa(3+r.Intn(17))
+					ctags = []string{"comparator-magnitudes"}
+				case 3, 4:
+					cmps = tr.Pick(r, []string{"a", "t", "h", "A", "D", "x", "X"})
+					ctags = []string{"comparator-magnitudes"}
 				}
 				b := history(r, pat, beta, n)
 				t := build(cmps, b, "")
@@ -494,6 +568,7 @@ func main() {
 				if cmps != "n" {
 					tags = append(tags, "custom-comparator")
 				}
+				tags = append(tags, ctags...)
 				// full sweeps from every key (bounded number of keys for the big ones)
 				var sw []string
 				for j, k := range keys {
@@ -518,6 +593,26 @@ func main() {
 					}
 					ops = append(ops, "i"+bb, string(moves[r.Intn(len(moves))])+bb, "u"+bb, "r"+bb, "i"+a)
 					x.emit(cmps, b, shape, ops, append(tags, "clone-then-move")...)
+				}
+				// clone, then move ONE of the two up and down another branch (Up then Left/Right; Next/Prev
+				// that climb to an ancestor and then descend), re-reading both after every step: a path
+				// array shared between the two would be overwritten by the descent.  From every key of the
+				// smaller trees, the original moved (a=0) and the clone moved (a=1).
+				if len(keys) >= 2 && len(keys) <= 24 {
+					for _, k := range keys {
+						ks := strconv.Itoa(k)
+						for _, a := range []string{"0", "1"} {
+							ops := []string{"K0=" + ks, "C01", "u" + a, "l" + a, "K0=" + ks, "C01", "u" + a, "r" + a,
+								"K0=" + ks, "C01", "u" + a, "u" + a, "x" + a, "K0=" + ks, "C01", "u" + a, "m" + a,
+								"K0=" + ks, "C01", "n" + a, "n" + a, "p" + a, "p" + a, "p" + a, "n" + a,
+								"K0=" + ks, "C01", "C02", "p" + a, "p" + a, "n2", "n2", "i0", "i1", "i2"}
+							tg := "clone-up-down-original-moved"
+							if a == "1" {
+								tg = "clone-up-down-clone-moved"
+							}
+							x.emit(cmps, b, shape, ops, append(tags, tg)...)
+						}
+					}
 				}
 				// random walks: from random keys, and from every key of the smaller trees
 				for j := 0; j < 6; j++ {
